@@ -26,6 +26,7 @@ class State:
         self.rc = {}
         self.log = []          # notable events (callbacks made, errors set) for oracles
         self.api_calls = set()
+        self.rec_depth = 0     # Py_EnterRecursiveCall / Py_LeaveRecursiveCall balance (a ghost like the reference counts)
 
     def incref(self, o, n=1):
         if o is NULL or o is None and False:
@@ -291,6 +292,10 @@ def build(interp_globals):
             return base.__name__
         if field == "tp_dict":
             return base.__dict__
+        if field == "tp_getattro":
+            if not isinstance(base, type):
+                raise MemSafety("->tp_getattro on a non-type")
+            return FnPtr("__tp_getattro__")       # every type has one; the call is dispatched on the object's type below
         if field == "ob_fval":
             return m_PyFloat_AS_DOUBLE(base)
         if field in ("real", "imag") and isinstance(base, SymComplex):
@@ -303,6 +308,37 @@ def build(interp_globals):
     def setmember(interp, base, field, v):
         raise Unsupported("write to member %s of %r" % (field, type(base).__name__))
     api["__setmember__"] = setmember
+
+    def tp_getattro(interp, o, name):
+        """(*Py_TYPE(o)->tp_getattro)(o, name): a HasTraits object's slot is has_traits_getattro - interpreted from the source
+        like any other C function; every other type's slot is modelled as PyObject_GetAttr"""
+        try:
+            import traits.ctraits as ctm
+            is_ht = isinstance(o, ctm.CHasTraits)
+        except Exception:
+            is_ht = False
+        if is_ht or (isinstance(o, Struct) and hasattr(o, "ctrait_dict")):
+            return interp.call("has_traits_getattro", [o, name])
+        return api["PyObject_GetAttr"](interp, o, name)
+    api["__tp_getattro__"] = tp_getattro
+
+    REC_LIMIT = 10            # the C recursion limit, scaled down (every interpreted C level costs dozens of Python frames)
+
+    @model
+    def m_Py_EnterRecursiveCall(where):
+        st.rec_depth += 1
+        if st.rec_depth > REC_LIMIT:
+            st.rec_depth -= 1          # a failing Enter must not be paired with a Leave
+            st.set_err(RecursionError, RecursionError("maximum recursion depth exceeded" + (where if isinstance(where, str) else "")))
+            return 1
+        return 0
+
+    @model
+    def m_Py_LeaveRecursiveCall():
+        st.rec_depth -= 1
+        if st.rec_depth < 0:
+            raise MemSafety("Py_LeaveRecursiveCall without a matching successful Py_EnterRecursiveCall")
+        return None
 
     # ---- numbers ----
     @model
